@@ -211,6 +211,7 @@ def plan(tier, seed):
         jobs.append(dict(target=name))
     jobs.append(dict(target='*netcdf-host'))
     jobs.append(dict(target='*relative-paths'))
+    jobs.append(dict(target='*path-history'))
     return jobs
 
 
@@ -253,6 +254,52 @@ def special_harness(ctx, cfg):
         obs.append((lab, z3.BoolVal(oc == 'accepted' if want is None else (oc.startswith('rejected:') and oc.split(':')[1] in want))))
         groups[lab] = 'netcdf-host ' + ('rejected-wellformed' if want is None else 'accepted-illformed')
         rec = {'target': cfg['target'], 'source': src, 'outcome': oc}
+    elif cfg['target'] == '*path-history':
+        # the same path through two Programs of one process, with the world changing in between: a file that existed for
+        # the first Program is deleted / the same relative name belongs to another working directory
+        import shutil
+        scen = ctx.choice('history', 3)
+        d1 = os.path.join(P.SCRATCH, 'c12h-%d-one' % os.getpid())
+        d2 = os.path.join(P.SCRATCH, 'c12h-%d-two' % os.getpid())
+        for d_ in (d1, d2):
+            shutil.rmtree(d_, ignore_errors=True)
+            os.makedirs(d_)
+        with open(os.path.join(d1, 'layer.csv'), 'w') as f:
+            f.write('A\n1\n2\n')
+        if scen == 2:
+            with open(os.path.join(d2, 'layer.csv'), 'w') as f:
+                f.write('A\n7\n8\n')
+        rel = scen >= 1
+        src = 'Z = EEMSRead(InFileName = "%s", InFieldName = A)\nA = EEMSRead(InFileName = "%s", InFieldName = A)\nT = Copy(InFieldName = A)\n' % (DATA, 'layer.csv' if rel else os.path.join(d1, 'layer.csv'))
+        first = None
+        try:
+            Program.from_source(src, libraries=LIBS, working_dir=d1).run()
+            first = 'accepted'
+        except Exception as e:      # noqa: B902
+            first = 'failed:' + type(e).__name__
+        if scen == 0:
+            os.remove(os.path.join(d1, 'layer.csv'))
+        del RECORD[:]
+        got = None
+        try:
+            p2 = Program.from_source(src, libraries=LIBS, working_dir=(d1 if scen == 0 else d2))
+            p2.run()
+            oc = 'accepted'
+            got = [float(x) for x in p2.commands['T']._result]
+        except E.MPilotError as e:
+            oc = ('late:' if RECORD else 'rejected:') + type(e).__name__
+        except Exception as e:      # noqa: B902
+            oc = 'escaped:' + type(e).__name__
+        what = ['the file is deleted after the first Program ran', 'the second Program has a working directory without that file', 'the second Program has a working directory with its own file of that name'][scen]
+        if scen == 2:
+            ok = oc == 'accepted' and got == [7.0, 8.0]
+            lab = 'path history (%s): the second Program reads ITS file [7, 8] (first run %s; second %s %s)' % (what, first, oc, got)
+        else:
+            ok = oc == 'rejected:PathDoesNotExist'
+            lab = 'path history (%s): the second Program is rejected with PathDoesNotExist before anything runs (first run %s; second %s)' % (what, first, oc)
+        obs.append((lab, z3.BoolVal(bool(ok) and first == 'accepted')))
+        groups[lab] = 'path-history ' + ('accepted-illformed' if scen < 2 else 'wrong-file')
+        rec = {'target': cfg['target'], 'source': src, 'scenario': scen, 'outcome': oc}
     else:
         wdk = ctx.choice('working_dir', 5)
         d = P.SCRATCH
